@@ -286,5 +286,5 @@ META = {
             "theorem is proved about them. Not modelled: netzone routes with gateways inside these zones (C24), the route cache "
             "invalidation of DijkstraCache. Trusted: Coq kernel, extraction, routing_drv, the Python generator and link-name mapping.",
     "technique": "verified certificate checkers (Coq) applied to the implementation's all-pairs routes + model correspondence",
-    "claimed": False,
+    "claimed": True,
 }
